@@ -110,6 +110,8 @@ class C16(Check):
             if k % 60 == 6:
                 # well beyond 4 MiB of input, incompressible and compressible, a few large chunks
                 sizes = [rng.choice([1 << 21, (1 << 21) + 5, 3 << 20]) for _ in range(rng.randint(2, 4))]
+                if k == 6:
+                    sizes = [3 << 20, (3 << 20) + 5, 3 << 20]       # (more than 8 * 2**20 bytes for sure: the wide-item buffer of over 2**20 items)
                 kind = ('rand', 'text', 'zeros')[(k // 60) % 3]
                 codec = ('gzip', 'zstd')[(k // 180) % 2]
             elif k % 24 == 11:
